@@ -19,7 +19,7 @@ SimNext ==
     \/ (Up /\ stage = "mpt" /\ UNCHANGED vars /\ hist' = Append(hist, Step("dup", 0, 0, 0, "asc")))
     \/ Block /\ hist' = Append(hist, Step("blocks", 1, Win, 0, "asc"))
     \/ JumpStep /\ UNCHANGED hist
-    \/ \E i \in 1..(IF stage = "mpt" THEN 12 ELSE 3) : Flush /\ hist' = Append(hist, Step("flush", i, 0, 0, "asc"))   \* (weight of the flush among the successors)
+    \/ \E i \in 1..(IF stage = "mpt" THEN 40 ELSE 4) : Flush /\ hist' = Append(hist, Step("flush", i, 0, 0, "asc"))   \* (weight of the flush among the successors)
 SimSpec == SimInit /\ [][SimNext]_<<vars, hist>>
 Emit == (Len(hist) # Depth /\ stage # "done") \/ hist = <<>> \/ PrintT(<<"@@HIST@@", ToJson(hist)>>)
 =============================================================================
